@@ -2,10 +2,8 @@
   C07 (location–scale equivariance of the moments) — for X = l + s·Z with Z the standard member:
     mean(X) = l + s·mean(Z),  variance(X) = s²·variance(Z),  std_dev(X) = s·std_dev(Z),
     skewness(X) = skewness(Z),  entropy(X) = entropy(Z) + ln s.
-  Carrier ℝ, `s > 0`.  full(ℝ), except:
-  * StudentsT.entropy SUBTRACTS `ln s` — a genuine defect of the code (see
-    `studentsT_entropy_loc_scale_counterexample`; together with the proven density scaling
-    `pdf(l+s·z) = pdf₀(z)/s` (C10) the true entropy is `entropy₀ + ln s`).
+  Carrier ℝ, `s > 0`.  full(ℝ) for every family, including StudentsT.entropy (the earlier sign
+  defect `shift = -ln s` is fixed in the source: `studentsT_entropy_loc_scale`).
 -/
 import Statrs.Real.Simp
 import Statrs.Gen.D_normal
@@ -151,25 +149,20 @@ theorem studentsT_variance_loc_scale (l s ν : ℝ) :
 theorem studentsT_skewness_loc_scale (l s ν : ℝ) :
     StudentsT.skewness ⟨l, s, ν⟩ = StudentsT.skewness (⟨0, 1, ν⟩ : StudentsT ℝ) := rfl
 
-/-- what the model does: the entropy is shifted by **minus** `ln s` -/
-theorem studentsT_entropy_model_shift [SF ℝ] (l s ν : ℝ) :
+/-- the location–scale law `entropy(l + s·Z) = entropy(Z) + ln s` holds for StudentsT, whatever the
+    special functions are (`students_t.rs: let shift = self.scale.ln();` — the earlier `-ln s` sign
+    defect is fixed; consistent with the density scaling `pdf(l+s·z) = pdf₀(z)/s` of C10). -/
+theorem studentsT_entropy_loc_scale [SF ℝ] (l s ν : ℝ) :
     StudentsT.entropy ⟨l, s, ν⟩ = (StudentsT.entropy (⟨0, 1, ν⟩ : StudentsT ℝ)).map
-      (fun e => e - Real.log s) := by
-  unfold StudentsT.entropy; rfun_norm; lit_norm; simp; ring
+      (fun e => e + Real.log s) := by
+  unfold StudentsT.entropy; rfun_norm; lit_norm; simp
 
-/-- DEFECT: the location–scale law `entropy(l + s·Z) = entropy(Z) + ln s` FAILS for StudentsT,
-    whatever the special functions are: at `s = 2` it would force `ln 2 = 0`.
-    (`students_t.rs: let shift = -self.scale.ln();` has the wrong sign.) -/
-theorem studentsT_entropy_loc_scale_counterexample [SF ℝ] (ν : ℝ) :
-    StudentsT.entropy ⟨0, 2, ν⟩ ≠ (StudentsT.entropy (⟨0, 1, ν⟩ : StudentsT ℝ)).map
-      (fun e => e + Real.log 2) := by
-  rw [studentsT_entropy_model_shift]
-  unfold StudentsT.entropy
-  simp only [Option.map_some, ne_eq, Option.some.injEq]
-  intro h
-  have : Real.log 2 = 0 := by linarith
-  have h2 : (0 : ℝ) < Real.log 2 := Real.log_pos (by norm_num)
-  linarith
+/-- instance at the formerly failing witness `s = 2`: the entropy is shifted by `+ ln 2`, and that
+    shift is not zero (so the sign matters). -/
+theorem studentsT_entropy_loc_scale_two [SF ℝ] (ν : ℝ) :
+    StudentsT.entropy ⟨0, 2, ν⟩ = (StudentsT.entropy (⟨0, 1, ν⟩ : StudentsT ℝ)).map
+      (fun e => e + Real.log 2) ∧ Real.log 2 ≠ 0 :=
+  ⟨studentsT_entropy_loc_scale 0 2 ν, (Real.log_pos (by norm_num)).ne'⟩
 
 example : ∃ d : Uniform ℝ, d.f_min < d.f_max := ⟨⟨0, 1⟩, by norm_num⟩
 example : ∃ d : Triangular ℝ, d.f_min < d.f_max := ⟨⟨0, 1, 0⟩, by norm_num⟩
